@@ -14,6 +14,8 @@
  *   z,s               config_cond_cache_reset(r)
  *   v,s,<comps>       r->conditional_is_valid = bits
  *   n,s,<comps>,<attr>;<attr>..   new request: set attributes, valid bits, full reset
+ *   N,s,<comps>,<attr>;<attr>..   next request parsed: set attributes and valid bits only (the
+ *                     reset is left to http_response_config(), op h, as in the server)
  *   s                 h2_init_stream(con->request, con) (+ copy slot 0 attributes)
  *   p,s,012           request_config_reset + config_patch_config (server.name/tag/max-request-size)
  *   p,s,345           mod_setenv_patch_config (set-response-header/add-environment/set-environment)
@@ -295,6 +297,7 @@ static int run_op(char *op) {
         r->conditional_is_valid = valid_bits(f[2]);
         fputs(" v=", stdout);
         break;
+      case 'N':
       case 'n': {
         if (nf != 4) return 0;
         if (f[3][0] != '-') {
@@ -302,8 +305,8 @@ static int run_op(char *op) {
             for (int j = 0; j < na; ++j) if (set_attr(s, as[j]) < 0) return 0;
         }
         r->conditional_is_valid = valid_bits(f[2]);
-        config_cond_cache_reset(r);
-        fputs(" n=", stdout);
+        if (f[0][0] == 'n') config_cond_cache_reset(r);
+        printf(" %c=", f[0][0]);
         break;
       }
       case 's': {
